@@ -13,6 +13,11 @@ use std::time::Duration;
 
 pub const KMAX_ORACLE: u64 = 5;
 
+/// deep systems are followed to two-digit step numbers
+pub fn kmax_of(spec: &SysSpec) -> u64 {
+    if spec.name.starts_with("X-deep") { 12 } else { KMAX_ORACLE }
+}
+
 pub fn meta(rep: &mut Report) {
     rep.rule = "systems: skeleton families K1..K7 (DESIGN §3.5), sweeps S1 (every slot x every pool element), S3 (full product over the first pool elements), thorough adds S2 (all slot pairs); each system x solver persona x bad-state mode x simplification (orthogonal assignment in quick, full matrix in thorough) x the two boundary bounds L-1 and L around the oracle's shortest counterexample (k=4 when none); the real bmc() runs against the reference solver (decision by exhaustive enumeration) over the real pipe protocol; the verdict must be Fail iff the explicit-state oracle finds a bad state within k steps. distinct_nontrivial = distinct (system, config, bound) sessions in which the engine issued at least two check-sat queries (the transition relation was actually unrolled); states/transitions = reference states / transitions visited by the oracle's breadth-first searches; traces_validated_against_impl = sessions whose verdict was compared with the oracle".into();
     rep.assumptions = vec![
@@ -83,7 +88,7 @@ pub fn cases(tier: Tier, seed: u64, rep: &Report) -> Vec<Case> {
     // the explicit-state oracle for every system, in parallel
     use rayon::prelude::*;
     let reaches: Vec<Option<pvcore::tsref::Reach>> =
-        specs.par_iter().map(|spec| if spec.bads.is_empty() { None } else { Some(oracle(spec, Some(KMAX_ORACLE), true)) }).collect();
+        specs.par_iter().map(|spec| if spec.bads.is_empty() { None } else { Some(oracle(spec, Some(kmax_of(spec)), true)) }).collect();
     if std::env::var("PV_PROFILE").is_ok() {
         eprintln!("oracle done at {:?}", t0.elapsed());
     }
@@ -292,7 +297,7 @@ pub fn cfg_from_json(v: &Value) -> McCfg {
 pub fn replay(case: &Value, rep: &Report) {
     let spec = SysSpec::from_json(&case["sys"]).expect("system");
     let cfg = cfg_from_json(&case["cfg"]);
-    let r = oracle(&spec, Some(KMAX_ORACLE.max(cfg.k)), true);
+    let r = oracle(&spec, Some(kmax_of(&spec).max(cfg.k)), true);
     let expect_fail = r.shortest.map(|l| l <= cfg.k).unwrap_or(false);
     let c = Case { spec: spec.clone(), cfg: cfg.clone(), expect_fail, l: r.shortest, order: 0 };
     let res = run_jobs(&[job(&spec, &cfg, json!({}), true)], 1, Duration::from_secs(30));
